@@ -271,6 +271,24 @@ def pmap(fn, items, chunk=50, nproc=None):
     return flat
 
 
+def pmap_isolated(fn, items, nproc=None):
+    """Like pmap, but every item runs in a freshly forked process of its own: module-level state of the code under test (caches
+    filled by earlier calls) is as it is right after import, so the ORDER of calls inside one item is the only history there is."""
+    global _WORKER_FN
+    items = list(items)
+    if not items:
+        return []
+    _WORKER_FN = fn
+    ctx = multiprocessing.get_context("fork")
+    with ctx.Pool(min(nproc or NPROC, len(items)), maxtasksperchild=1) as pool:
+        res = pool.map(_worker, [[it] for it in items], chunksize=1)
+    flat = [r for c in res for r in c]
+    for r in flat:
+        if isinstance(r, dict) and "machinery" in r:
+            raise MachineryFailure("driver crashed outside bionumpy: %s\nitem=%s" % (r["machinery"], str(r["item"])[:500]))
+    return flat
+
+
 # --------------------------------------------------------------------------------------------
 # run context: verdicts, findings, evidence
 # --------------------------------------------------------------------------------------------
